@@ -572,12 +572,25 @@ async fn copy_to_qcow2<T: Qcow2IoOps>(
     off: u64,
     bytes: usize,
 ) -> Qcow2Result<usize> {
-    let mut buf = Qcow2IoBuf::<u8>::new(bytes);
+    // the tail of one raw file may not fill its last block: qcow2 image is
+    // written in blocks, so pad it with zero (virtual size is cluster aligned)
+    let bs = 512;
+    let mut buf = Qcow2IoBuf::<u8>::new(bytes.div_ceil(bs) * bs);
+    buf.zero_buf();
 
     src.seek(SeekFrom::Start(off))?;
-    let res = src.read(&mut buf)?;
+    let mut res = 0;
+    while res < bytes {
+        let done = src.read(&mut buf[res..bytes])?;
+        if done == 0 {
+            break;
+        }
+        res += done;
+    }
 
-    dev.write_at(&buf[0..res], off).await?;
+    if res > 0 {
+        dev.write_at(&buf[0..res.div_ceil(bs) * bs], off).await?;
+    }
     Ok(res)
 }
 
